@@ -25,7 +25,7 @@ PROPS = {
     "C08": {"level": "exploration", "stages": ["native"]},
     "C09": {"level": "exploration", "stages": ["native", "stdbuild"]},
     "C10": {"level": "exploration", "stages": ["native", "constrained"]},
-    "C11": {"level": "fault_enumeration", "stages": ["native", "nohooks", "miri"]},
+    "C11": {"level": "fault_enumeration", "stages": ["native", "nohooks", "constrained", "miri"]},
     "C12": {"level": "exploration", "stages": ["native"], "thorough_extra": ["miri"]},
     "C13": {"level": "exploration", "stages": ["native"]},
     "C14": {"level": "exploration", "stages": ["c14"]},
@@ -159,6 +159,12 @@ class Run:
         ],
         # aux data: builds in which the top tree of a key has the maximum height the build allows
         # (its leaf level is then cached) and builds with fewer levels
+        # key bytes and parameter lists beyond what the build supports are malformed input there
+        "C11": [
+            ("L1", 1, "25", "1", True),
+            ("L3-h10-5-5-w8-4-2", 3, "10, 5, 5", "8, 4, 2", True),
+            ("L2-h5-10", 2, "5, 10", "1, 1", False),
+        ],
         "C10": [
             ("L1-h5", 1, "5", "1", True),
             ("L8-h5", 8, ", ".join(["5"] * 8), ", ".join(["1"] * 8), True),
@@ -182,12 +188,15 @@ class Run:
             res = os.path.join(self.results, f"{self.prop}-constrained-{name}.json")
             if os.path.exists(res):
                 os.remove(res)
-            renv = dict(self.env); renv["VERIF_SCALE"] = "0.5"; renv["VERIF_BUILD_CONFIG"] = name
+            renv = dict(self.env); renv["VERIF_SCALE"] = "0.5"; renv["VERIF_BUILD_CONFIG"] = name; renv["VERIF_BUILD_LIMITS"] = f"{lv};{hs};{ws}"
             c, text = sh([os.path.join(tdir, "release", "hbsmon"), self.prop, "--tier", self.tier, "--seed", str(self.seed), "--out", res, "--threads", "8"], cwd=self.root, env=renv, timeout=WATCHDOG[self.tier])
             if c != 0 or not os.path.exists(res):
                 return name, {"inconclusive": [f"driver of the build with configuration {name} failed (exit {c}): " + text[-300:]]}
             d = json.load(open(res))
+            known_keys = {f.get("key") for f in self.known_findings() if f.get("status") == "known" and f.get("property") == self.prop}
             for v in d.get("violations", []):
+                if v["key"] in known_keys:
+                    continue  # a recorded finding is the same finding in every build
                 v["key"] = v["key"] + f":build={name}"
                 v["what"] = f"[build HBS_LMS_MAX_ALLOWED_HSS_LEVELS={lv} HBS_LMS_TREE_HEIGHTS='{hs}' HBS_LMS_WINTERNITZ_PARAMETERS='{ws}'] " + v["what"]
             # a constrained build refuses most of the default workload's keys: what it did observe is in its counters
